@@ -5,6 +5,7 @@ import (
 	"os"
 	"strings"
 	"go/ast"
+	"go/parser"
 	"go/token"
 	"go/types"
 	"reflect"
@@ -29,6 +30,7 @@ type inliner struct {
 	p     *GoProg
 	known map[string]bool // functions of the reference tree
 	count int
+	direct map[types.Object]bool // parameters replaced by the caller's variable although the helper assigns them (shape G)
 }
 
 func (p *GoProg) applyInline() {
@@ -118,6 +120,16 @@ type cloner struct {
 	subst  map[types.Object]ast.Expr // parameter object -> replacement expression (cloned on each use)
 	rename map[types.Object]string   // local object -> new name
 	memo   map[ast.Node]ast.Node
+	fresh  map[types.Object]types.Object // helper local -> its own variable in this expansion
+}
+
+// own: every expansion gets variables of its own for the helper's locals (two expansions of one helper in one function
+// must not look like two definitions of one variable).
+func (c *cloner) own(o types.Object) types.Object {
+	if n, ok := c.fresh[o]; ok {
+		return n
+	}
+	return o
 }
 
 func (c *cloner) node(n ast.Node) ast.Node {
@@ -145,6 +157,17 @@ func (c *cloner) node(n ast.Node) ast.Node {
 	v := reflect.ValueOf(n)
 	cp := c.value(v)
 	out := cp.Interface().(ast.Node)
+	// (&x).f is x.f, *(&x) is x (left behind when a pointer parameter is replaced by the address that was passed)
+	switch y := out.(type) {
+	case *ast.SelectorExpr:
+		if u, ok := ast.Unparen(y.X).(*ast.UnaryExpr); ok && u.Op == token.AND {
+			y.X = u.X
+		}
+	case *ast.StarExpr:
+		if u, ok := ast.Unparen(y.X).(*ast.UnaryExpr); ok && u.Op == token.AND {
+			return u.X
+		}
+	}
 	return out
 }
 
@@ -215,13 +238,13 @@ func (c *cloner) copyInfo(orig, cl ast.Node) {
 	case *ast.Ident:
 		ci := cl.(*ast.Ident)
 		if obj := info.Defs[o]; obj != nil {
-			info.Defs[ci] = obj
+			info.Defs[ci] = c.own(obj)
 			if nn, ok := c.rename[obj]; ok {
 				ci.Name = nn
 			}
 		}
 		if obj := info.Uses[o]; obj != nil {
-			info.Uses[ci] = obj
+			info.Uses[ci] = c.own(obj)
 			if nn, ok := c.rename[obj]; ok {
 				ci.Name = nn
 			}
@@ -252,22 +275,61 @@ func (in *inliner) prepare(call *ast.CallExpr, h *ast.FuncDecl, caller *ast.Func
 		return true
 	})
 	assigned := map[types.Object]bool{}
+	// valueRoot: the identifier a store to e lands in when e is a field/array-element path that stays inside the
+	// variable's own storage (p.f.g = …, p.arr[i] = … with p a struct or array *value*): such a store changes the
+	// helper's private copy of a value parameter, never the caller's variable
+	var valueRoot func(e ast.Expr) *ast.Ident
+	valueRoot = func(e ast.Expr) *ast.Ident {
+		switch x := ast.Unparen(e).(type) {
+		case *ast.Ident:
+			return x
+		case *ast.SelectorExpr:
+			if sel, ok := p.Info.Selections[x]; ok && !sel.Indirect() {
+				if _, isPtr := p.Info.TypeOf(x.X).Underlying().(*types.Pointer); !isPtr {
+					return valueRoot(x.X)
+				}
+			}
+		case *ast.IndexExpr:
+			if t := p.Info.TypeOf(x.X); t != nil {
+				if _, isArr := t.Underlying().(*types.Array); isArr {
+					return valueRoot(x.X)
+				}
+			}
+		}
+		return nil
+	}
+	mark := func(e ast.Expr) {
+		if id := valueRoot(e); id != nil {
+			if o := p.ObjOf(id); o != nil {
+				if _, isPtr := o.Type().Underlying().(*types.Pointer); !isPtr || ast.Unparen(e) == ast.Expr(id) {
+					assigned[o] = true
+				}
+			}
+		}
+	}
 	ast.Inspect(h.Body, func(n ast.Node) bool {
 		switch x := n.(type) {
 		case *ast.AssignStmt:
 			for _, l := range x.Lhs {
-				if id, ok := ast.Unparen(l).(*ast.Ident); ok {
-					assigned[p.ObjOf(id)] = true
-				}
+				mark(l)
 			}
 		case *ast.IncDecStmt:
-			if id, ok := ast.Unparen(x.X).(*ast.Ident); ok {
-				assigned[p.ObjOf(id)] = true
-			}
+			mark(x.X)
 		case *ast.UnaryExpr:
 			if x.Op == token.AND {
-				if id, ok := ast.Unparen(x.X).(*ast.Ident); ok {
-					assigned[p.ObjOf(id)] = true
+				mark(x.X)
+			}
+		case *ast.CallExpr:
+			// a pointer-receiver method called on a field of a value parameter works on the copy as well
+			if sel, ok := ast.Unparen(x.Fun).(*ast.SelectorExpr); ok {
+				if s2, ok := p.Info.Selections[sel]; ok && s2.Kind() == types.MethodVal {
+					if sig, ok := s2.Obj().Type().(*types.Signature); ok && sig.Recv() != nil {
+						if _, ptrRecv := sig.Recv().Type().(*types.Pointer); ptrRecv {
+							if _, argPtr := p.Info.TypeOf(sel.X).Underlying().(*types.Pointer); !argPtr {
+								mark(sel.X)
+							}
+						}
+					}
 				}
 			}
 		case *ast.RangeStmt:
@@ -297,7 +359,7 @@ func (in *inliner) prepare(call *ast.CallExpr, h *ast.FuncDecl, caller *ast.Func
 		if obj == nil || param.Name == "_" {
 			return
 		}
-		if p.pureExpr(arg) && !assigned[obj] {
+		if p.pureExpr(arg) && (!assigned[obj] || in.direct[obj]) {
 			cl.subst[obj] = arg
 			return
 		}
@@ -361,6 +423,21 @@ func (in *inliner) prepare(call *ast.CallExpr, h *ast.FuncDecl, caller *ast.Func
 		return nil, nil, false
 	}
 	// locals of the helper whose names are taken in the caller get a fresh name; named results become locals
+	if h.Type.Results != nil {
+		for _, f := range h.Type.Results.List {
+			for _, nm := range f.Names {
+				if obj := p.Info.Defs[nm]; obj != nil && nm.Name != "_" {
+					if taken[nm.Name] {
+						cl.rename[obj] = fresh(nm.Name)
+					} else {
+						taken[nm.Name] = true
+					}
+				}
+			}
+		}
+	}
+	cl.fresh = map[types.Object]types.Object{}
+	var expScope *types.Scope
 	ast.Inspect(h.Body, func(n ast.Node) bool {
 		id, ok := n.(*ast.Ident)
 		if !ok || id.Name == "_" {
@@ -372,6 +449,20 @@ func (in *inliner) prepare(call *ast.CallExpr, h *ast.FuncDecl, caller *ast.Func
 			} else if !done {
 				taken[id.Name] = true
 			}
+			name := id.Name
+			if nn, ok := cl.rename[obj]; ok {
+				name = nn
+			}
+			nv := types.NewVar(call.Pos(), obj.Pkg(), name, obj.Type())
+			if expScope == nil {
+				expScope = types.NewScope(nil, call.Pos(), call.End(), "expansion")
+			}
+			if expScope.Lookup(name) == nil {
+				expScope.Insert(nv) // gives the variable a (non-package) scope: it is a local like any other
+			} else {
+				types.NewScope(nil, call.Pos(), call.End(), "expansion").Insert(nv)
+			}
+			cl.fresh[obj] = nv
 		}
 		return true
 	})
@@ -479,13 +570,171 @@ func (in *inliner) expandIn(caller *ast.FuncDecl) {
 	var fix func(list []ast.Stmt) []ast.Stmt
 	fix = func(list []ast.Stmt) []ast.Stmt {
 		var out []ast.Stmt
-		for _, st := range list {
+		for i := 0; i < len(list); i++ {
+			st := list[i]
+			// label: x = h(…)  —  the label stays on an empty statement, the call is expanded behind it
+			if ls, ok := st.(*ast.LabeledStmt); ok {
+				if _, isEmpty := ls.Stmt.(*ast.EmptyStmt); !isEmpty {
+					inner := []ast.Stmt{ls.Stmt}
+					inner = append(inner, list[i+1:]...)
+					var repl []ast.Stmt
+					used := 0
+					if r := in.expandStmt(ls.Stmt, caller); r != nil {
+						repl, used = r, 1
+					} else if g, u := in.expandG(inner, 0, caller); u > 0 {
+						repl, used = g, u
+					}
+					if used > 0 {
+						out = append(out, &ast.LabeledStmt{Label: ls.Label, Colon: ls.Colon, Stmt: &ast.EmptyStmt{Semicolon: ls.Colon, Implicit: true}})
+						out = append(out, repl...)
+						i += used - 1
+						continue
+					}
+				}
+			}
 			repl := in.expandStmt(st, caller)
 			if repl != nil {
 				out = append(out, repl...)
-			} else {
-				out = append(out, st)
+				continue
 			}
+			if g, used := in.expandG(list, i, caller); used > 0 {
+				out = append(out, g...)
+				i += used - 1
+				continue
+			}
+			// if x… = h(a…); c { … }: the initialiser is taken out in front of the test
+			if ifs, ok := st.(*ast.IfStmt); ok && ifs.Init != nil {
+				if as, ok := ifs.Init.(*ast.AssignStmt); ok && len(as.Rhs) == 1 {
+					if call, ok := ast.Unparen(as.Rhs[0]).(*ast.CallExpr); ok && in.helperOf(call) != nil {
+						bare := *ifs
+						bare.Init = nil
+						if g, used := in.expandG([]ast.Stmt{as, &bare}, 0, caller); used > 0 {
+							if used == 1 {
+								g = append(g, &bare)
+							}
+							if as.Tok == token.DEFINE {
+								out = append(out, &ast.BlockStmt{Lbrace: st.Pos(), List: g, Rbrace: st.End()})
+							} else {
+								out = append(out, g...)
+							}
+							continue
+						}
+					}
+				}
+			}
+			out = append(out, st)
+		}
+		return out
+	}
+	before := in.count
+	ast.Inspect(caller.Body, func(n ast.Node) bool {
+		switch x := n.(type) {
+		case *ast.BlockStmt:
+			x.List = fix(x.List)
+		case *ast.CaseClause:
+			x.Body = fix(x.Body)
+		case *ast.CommClause:
+			x.Body = fix(x.Body)
+		}
+		return true
+	})
+	if in.count != before {
+		in.dropUnreadLocals(caller)
+	}
+}
+
+// dropUnreadLocals: a local that is only ever assigned cannot exist in source the compiler accepts ("declared and not
+// used"); after an expansion it is what is left of a result variable whose tests were folded away. Its stores and its
+// declaration are removed.
+func (in *inliner) dropUnreadLocals(caller *ast.FuncDecl) {
+	p := in.p
+	locals := map[types.Object]bool{}
+	ast.Inspect(caller.Body, func(n ast.Node) bool {
+		if id, ok := n.(*ast.Ident); ok {
+			if v, ok := p.Info.Defs[id].(*types.Var); ok && !v.IsField() {
+				locals[v] = true
+			}
+		}
+		return true
+	})
+	stores := map[*ast.Ident]bool{}
+	ast.Inspect(caller.Body, func(n ast.Node) bool {
+		switch x := n.(type) {
+		case *ast.AssignStmt:
+			if x.Tok == token.ASSIGN || x.Tok == token.DEFINE {
+				for _, l := range x.Lhs {
+					if id, ok := l.(*ast.Ident); ok {
+						stores[id] = true
+					}
+				}
+			}
+		case *ast.ValueSpec:
+			for _, id := range x.Names {
+				stores[id] = true
+			}
+		}
+		return true
+	})
+	reads := map[types.Object]int{}
+	ast.Inspect(caller.Body, func(n ast.Node) bool {
+		if id, ok := n.(*ast.Ident); ok && !stores[id] {
+			if o := p.Info.Uses[id]; o != nil {
+				reads[o]++
+			}
+		}
+		return true
+	})
+	dead := func(e ast.Expr) bool {
+		id, ok := e.(*ast.Ident)
+		if !ok {
+			return false
+		}
+		o := p.Info.Uses[id]
+		if o == nil {
+			o = p.Info.Defs[id]
+		}
+		return o != nil && locals[o] && reads[o] == 0
+	}
+	droppable := func(e ast.Expr) bool { return p.pureExpr(e) || p.knownValue(e) != "" }
+	var fix func(list []ast.Stmt) []ast.Stmt
+	fix = func(list []ast.Stmt) []ast.Stmt {
+		var out []ast.Stmt
+		for _, st := range list {
+			switch s := st.(type) {
+			case *ast.AssignStmt:
+				if s.Tok == token.ASSIGN && len(s.Lhs) == len(s.Rhs) {
+					var l2, r2 []ast.Expr
+					for k := range s.Lhs {
+						if dead(s.Lhs[k]) && droppable(s.Rhs[k]) {
+							continue
+						}
+						l2 = append(l2, s.Lhs[k])
+						r2 = append(r2, s.Rhs[k])
+					}
+					if len(l2) == 0 {
+						continue
+					}
+					if len(l2) != len(s.Lhs) {
+						out = append(out, &ast.AssignStmt{Lhs: l2, Tok: s.Tok, TokPos: s.TokPos, Rhs: r2})
+						continue
+					}
+				}
+			case *ast.DeclStmt:
+				if gd, ok := s.Decl.(*ast.GenDecl); ok && gd.Tok == token.VAR && len(gd.Specs) == 1 {
+					if vs, ok := gd.Specs[0].(*ast.ValueSpec); ok && len(vs.Values) == 0 {
+						all := true
+						for _, id := range vs.Names {
+							if !dead(id) {
+								all = false
+							}
+						}
+						if all {
+							continue
+						}
+					}
+				}
+			}
+			out = append(out, st)
 		}
 		return out
 	}
@@ -535,6 +784,21 @@ func (in *inliner) expandStmt(st ast.Stmt, caller *ast.FuncDecl) []ast.Stmt {
 		blk.List = append(blk.List, pre...)
 		for _, b := range body {
 			blk.List = append(blk.List, cl.node(b).(ast.Stmt))
+		}
+		// nothing declared at the top of the expansion: the statements stand where the call stood
+		declares := false
+		for _, b := range blk.List {
+			switch x := b.(type) {
+			case *ast.DeclStmt:
+				declares = true
+			case *ast.AssignStmt:
+				if x.Tok == token.DEFINE {
+					declares = true
+				}
+			}
+		}
+		if !declares && len(blk.List) > 0 {
+			return blk.List
 		}
 		return []ast.Stmt{blk}
 	case *ast.AssignStmt:
@@ -914,8 +1178,46 @@ func (p *GoProg) propagateNewLocals() {
 			}
 			return true
 		})
-		if hasGoto {
-			continue
+		// with gotos in the function "between definition and use" is only meaningful inside one straight stretch of a
+		// statement list: definition and use in the same list, no label from the definition to the use
+		straight := func(def *ast.AssignStmt, use *ast.Ident) bool {
+			if !hasGoto {
+				return true
+			}
+			ok := false
+			ast.Inspect(fd.Body, func(n ast.Node) bool {
+				var list []ast.Stmt
+				switch x := n.(type) {
+				case *ast.BlockStmt:
+					list = x.List
+				case *ast.CaseClause:
+					list = x.Body
+				case *ast.CommClause:
+					list = x.Body
+				default:
+					return true
+				}
+				di := -1
+				for k, st := range list {
+					if st == ast.Stmt(def) {
+						di = k
+					}
+				}
+				if di < 0 {
+					return true
+				}
+				for k := di + 1; k < len(list); k++ {
+					if _, isLabel := list[k].(*ast.LabeledStmt); isLabel {
+						return false
+					}
+					if list[k].Pos() <= use.Pos() && use.Pos() < list[k].End() || containsNode(list[k], use) {
+						ok = true
+						return false
+					}
+				}
+				return false
+			})
+			return ok
 		}
 		ref := map[[2]string]int{}
 		for _, l := range fr.Locals {
@@ -1072,6 +1374,9 @@ func (p *GoProg) propagateNewLocals() {
 					return true
 				}
 				nUses++
+				if !straight(as, uid) {
+					okAll = false
+				}
 				blocked := func(a asg) bool {
 					// an assignment strictly between the definition and the use (a use inside the assigning statement
 					// itself reads the old value) …
@@ -1090,6 +1395,14 @@ func (p *GoProg) propagateNewLocals() {
 					for _, a := range objAsg[ro] {
 						if blocked(a) {
 							okAll = false
+						}
+					}
+					// a variable whose address is taken somewhere can be written by any call that was handed a reference
+					if addrTaken[ro] {
+						for _, a := range pathAsg["<call>"] {
+							if blocked(a) {
+								okAll = false
+							}
 						}
 					}
 				}
@@ -1118,6 +1431,10 @@ func (p *GoProg) propagateNewLocals() {
 			if okAll && nUses > 0 {
 				subst[o] = rhs
 				defStmt[o] = as
+			} else if nUses == 1 && !okAll {
+				// t := e; S…; x = t  with t used nowhere else and S… not mentioning x:  x = e; S…
+				// (the temporary an expanded helper leaves behind when it computes its result before a later statement)
+				p.sinkTemp(fd, as, o)
 			}
 			return true
 		})
@@ -1145,6 +1462,7 @@ func (p *GoProg) propagateNewLocals() {
 			}
 			return e
 		})
+		stripRedundantParens(fd.Body)
 		// the definitions become `_ = e` (dropped by the normal forms)
 		for _, as := range defStmt {
 			blank := &ast.Ident{Name: "_", NamePos: as.Lhs[0].Pos()}
@@ -1155,4 +1473,847 @@ func (p *GoProg) propagateNewLocals() {
 			as.Rhs[0] = zero // every use now evaluates the expression itself
 		}
 	}
+}
+
+// ---- shape G: any helper (loops, several returns) ------------------------------------------------------------------
+//
+//   x… = h(a…)            →  body[p:=a] with every `return e…` replaced by `x… = e…; goto L`, the label after the body
+//   return h(a…)          →  body[p:=a], returns stay returns (tail call)
+//   h(a…) (void, returns) →  body[p:=a] with `return` replaced by `goto L`
+//
+// When the statement after the call is `if c { …leave }` (the usual `if !ok`/`if err != nil` test of what the helper
+// just returned), that test is duplicated to every return site and folded with the constants assigned there
+// (true/false/nil/non-nil), so that `return off, false` + `if !ok { return dst, err }` becomes `return dst, err` on the
+// spot and no goto remains: the code a reader would have written without the helper.
+// A parameter the helper assigns is replaced directly by the caller's variable when every return hands that parameter
+// back into the very same variable (`off, ok = h(…, off, …)` with `return off, …` everywhere).
+
+var inlLabelSeq int
+
+func (in *inliner) expandG(list []ast.Stmt, i int, caller *ast.FuncDecl) ([]ast.Stmt, int) {
+	p := in.p
+	st := list[i]
+	var call *ast.CallExpr
+	var lhs []ast.Expr
+	tok := token.ASSIGN
+	tail := false
+	tailIdx := 0
+	var tailAll []ast.Expr
+	switch s := st.(type) {
+	case *ast.AssignStmt:
+		if len(s.Rhs) != 1 || (s.Tok != token.ASSIGN && s.Tok != token.DEFINE) {
+			return nil, 0
+		}
+		c, ok := ast.Unparen(s.Rhs[0]).(*ast.CallExpr)
+		if !ok {
+			return nil, 0
+		}
+		call, lhs, tok = c, s.Lhs, s.Tok
+	case *ast.ReturnStmt:
+		// return h(a…)   or   return …, h(a…), …  with the other results side-effect free and h single-valued
+		for k, r := range s.Results {
+			c, ok := ast.Unparen(r).(*ast.CallExpr)
+			if !ok || in.helperOf(c) == nil {
+				continue
+			}
+			othersPure := true
+			for j, o := range s.Results {
+				if j != k && !p.pureExpr(o) {
+					othersPure = false
+				}
+			}
+			if othersPure {
+				call, tail, tailIdx, tailAll = c, true, k, s.Results
+				break
+			}
+		}
+		if call == nil {
+			return nil, 0
+		}
+	case *ast.ExprStmt:
+		c, ok := ast.Unparen(s.X).(*ast.CallExpr)
+		if !ok {
+			return nil, 0
+		}
+		call = c
+	default:
+		return nil, 0
+	}
+	h := in.helperOf(call)
+	if h == nil || h == caller || len(h.Body.List) == 0 {
+		return nil, 0
+	}
+	nres := 0
+	var namedRes []*ast.Ident
+	namedUsed := false
+	if h.Type.Results != nil {
+		for _, f := range h.Type.Results.List {
+			if len(f.Names) == 0 {
+				nres++
+				continue
+			}
+			// named results: documentation only when the body never mentions them; otherwise they become locals of the
+			// expansion (declared in front, zero-initialised) and a bare return hands them back
+			for _, nm := range f.Names {
+				nres++
+				namedRes = append(namedRes, nm)
+				robj := p.Info.Defs[nm]
+				ast.Inspect(h.Body, func(n ast.Node) bool {
+					if id, ok := n.(*ast.Ident); ok && robj != nil && p.Info.Uses[id] == robj {
+						namedUsed = true
+					}
+					return true
+				})
+			}
+		}
+	}
+	if !tail && len(lhs) != nres {
+		return nil, 0
+	}
+	if tail && nres == 0 {
+		return nil, 0
+	}
+	okRets := true
+	var rets []*ast.ReturnStmt
+	ast.Inspect(h.Body, func(n ast.Node) bool {
+		if r, ok := n.(*ast.ReturnStmt); ok {
+			rets = append(rets, r)
+			if len(r.Results) != nres && !(len(r.Results) == 0 && len(namedRes) == nres) {
+				okRets = false
+			}
+			if len(r.Results) == 0 && nres > 0 {
+				namedUsed = true
+			}
+		}
+		return true
+	})
+	if !okRets {
+		return nil, 0
+	}
+	for _, l := range lhs {
+		if !p.plainLhs(l) {
+			return nil, 0
+		}
+	}
+	// := : the new variables are declared in front
+	var decls []ast.Stmt
+	if tok == token.DEFINE {
+		for _, l := range lhs {
+			id, ok := l.(*ast.Ident)
+			if !ok {
+				return nil, 0
+			}
+			if id.Name == "_" {
+				continue
+			}
+			obj := p.Info.Defs[id]
+			if obj == nil {
+				continue // redeclared in a mixed :=, plain assignment
+			}
+			te := p.typeExprFor(obj.Type(), id.Pos())
+			if te == nil {
+				return nil, 0
+			}
+			decls = append(decls, &ast.DeclStmt{Decl: &ast.GenDecl{Tok: token.VAR, TokPos: id.Pos(), Specs: []ast.Spec{&ast.ValueSpec{Names: []*ast.Ident{id}, Type: te}}}})
+		}
+	}
+	// direct parameters
+	in.direct = map[types.Object]bool{}
+	if !tail && h.Type.Params != nil {
+		k := 0
+		for _, f := range h.Type.Params.List {
+			for _, nm := range f.Names {
+				if k < len(call.Args) {
+					in.tryDirect(nm, call.Args[k], call, lhs, rets, caller)
+				}
+				k++
+			}
+		}
+	}
+	cl, pre, ok := in.prepare(call, h, caller)
+	direct := in.direct
+	in.direct = nil
+	if !ok {
+		return nil, 0
+	}
+	in.count++
+	var body []ast.Stmt
+	for _, b := range h.Body.List {
+		body = append(body, cl.node(b).(ast.Stmt))
+	}
+	_ = direct
+	unified := false
+	if namedUsed && !tail && tok == token.DEFINE && len(lhs) == len(namedRes) {
+		// x, y := h()  with named results used in h: the results *are* the new variables
+		all := true
+		for _, l := range lhs {
+			id, ok := l.(*ast.Ident)
+			if !ok || id.Name == "_" || p.Info.Defs[id] == nil {
+				all = false
+			}
+		}
+		if all {
+			for k, nm := range namedRes {
+				if obj := p.Info.Defs[nm]; obj != nil {
+					use := &ast.Ident{Name: lhs[k].(*ast.Ident).Name, NamePos: lhs[k].Pos()}
+					p.Info.Uses[use] = p.Info.Defs[lhs[k].(*ast.Ident)]
+					p.Info.Types[use] = types.TypeAndValue{Type: obj.Type()}
+					cl.subst[obj] = use
+				}
+			}
+			unified = true
+			// the body was cloned before the substitution was known: clone again
+			body = body[:0]
+			cl.memo = map[ast.Node]ast.Node{}
+			for _, b := range h.Body.List {
+				body = append(body, cl.node(b).(ast.Stmt))
+			}
+		}
+	}
+	if namedUsed && unified {
+		for _, b := range body {
+			ast.Inspect(b, func(n ast.Node) bool {
+				if r, ok := n.(*ast.ReturnStmt); ok && len(r.Results) == 0 {
+					for _, l := range lhs {
+						u := &ast.Ident{Name: l.(*ast.Ident).Name, NamePos: r.Pos()}
+						p.Info.Uses[u] = p.Info.Defs[l.(*ast.Ident)]
+						r.Results = append(r.Results, u)
+					}
+				}
+				return true
+			})
+		}
+	}
+	if namedUsed && !unified {
+		var rdecl []ast.Stmt
+		var rids []*ast.Ident
+		for _, nm := range namedRes {
+			obj := p.Info.Defs[nm]
+			if obj == nil || nm.Name == "_" {
+				return nil, 0
+			}
+			name := nm.Name
+			if nn, ok := cl.rename[obj]; ok {
+				name = nn
+			}
+			te := p.typeExprFor(obj.Type(), nm.Pos())
+			if te == nil {
+				return nil, 0
+			}
+			did := &ast.Ident{Name: name, NamePos: nm.Pos()}
+			p.Info.Defs[did] = obj
+			rdecl = append(rdecl, &ast.DeclStmt{Decl: &ast.GenDecl{Tok: token.VAR, TokPos: nm.Pos(), Specs: []ast.Spec{&ast.ValueSpec{Names: []*ast.Ident{did}, Type: te}}}})
+			rids = append(rids, did)
+		}
+		for _, b := range body {
+			ast.Inspect(b, func(n ast.Node) bool {
+				if r, ok := n.(*ast.ReturnStmt); ok && len(r.Results) == 0 {
+					for _, d := range rids {
+						u := &ast.Ident{Name: d.Name, NamePos: r.Pos()}
+						p.Info.Uses[u] = p.Info.Defs[d]
+						p.Info.Types[u] = types.TypeAndValue{Type: p.Info.Defs[d].Type()}
+						r.Results = append(r.Results, u)
+					}
+				}
+				return true
+			})
+		}
+		pre = append(pre, rdecl...)
+	}
+	if tail {
+		if len(tailAll) > 1 {
+			if nres != 1 {
+				return nil, 0
+			}
+			for _, b := range body {
+				ast.Inspect(b, func(n ast.Node) bool {
+					if r, ok := n.(*ast.ReturnStmt); ok && len(r.Results) == 1 {
+						var rs []ast.Expr
+						for j, o := range tailAll {
+							if j == tailIdx {
+								rs = append(rs, r.Results[0])
+							} else {
+								c2 := &cloner{p: p, memo: map[ast.Node]ast.Node{}}
+								rs = append(rs, c2.node(o).(ast.Expr))
+							}
+						}
+						r.Results = rs
+					}
+					return true
+				})
+			}
+		}
+		out := append([]ast.Stmt{}, pre...)
+		return append(out, body...), 1
+	}
+	// the test that follows the call
+	var follow *ast.IfStmt
+	if i+1 < len(list) && nres > 0 {
+		if ifs, ok := list[i+1].(*ast.IfStmt); ok && ifs.Init == nil && ifs.Else == nil && blockLeaves(ifs.Body) {
+			follow = ifs
+		}
+	}
+	inlLabelSeq++
+	label := fmt.Sprintf("_inl%d", inlLabelSeq)
+	usedGoto := false
+	plain := func(n ast.Node) ast.Node {
+		c := &cloner{p: p, memo: map[ast.Node]ast.Node{}}
+		return c.node(n)
+	}
+	site := func(r *ast.ReturnStmt, final bool) []ast.Stmt {
+		var out []ast.Stmt
+		var l2, r2 []ast.Expr
+		known := map[types.Object]string{}
+		for k, l := range lhs {
+			res := r.Results[k]
+			lc := plain(l).(ast.Expr)
+			if id, ok := lc.(*ast.Ident); ok {
+				if obj := p.Info.Defs[id]; obj != nil { // was the defining occurrence
+					delete(p.Info.Defs, id)
+					p.Info.Uses[id] = obj
+				}
+				if obj := p.Info.Uses[id]; obj != nil {
+					if kv := p.knownValue(res); kv != "" {
+						known[obj] = kv
+					}
+					if rid, ok := ast.Unparen(res).(*ast.Ident); ok && p.Info.Uses[rid] == obj {
+						continue // x = x
+					}
+				}
+			}
+			l2 = append(l2, lc)
+			r2 = append(r2, res)
+		}
+		asgn := &ast.AssignStmt{Lhs: l2, Tok: token.ASSIGN, TokPos: r.Pos(), Rhs: r2}
+		if follow != nil {
+			val, resid := p.foldCond(follow.Cond, known)
+			if val == 1 && in.deadBeforeReturn(asgn, follow.Body, caller) {
+				l2 = nil
+			}
+			if len(l2) > 0 {
+				out = append(out, asgn)
+			}
+			// the duplicated test sits where the return was: its nodes get positions there, so that "before/inside the
+			// loop" keeps its meaning among the nodes of the expansion
+			delta := r.Pos() - follow.Body.Pos()
+			switch val {
+			case 1:
+				for _, b := range follow.Body.List {
+					nb := plain(b).(ast.Stmt)
+					shiftPos(nb, delta)
+					out = append(out, nb)
+				}
+				return out
+			case 0:
+			default:
+				nb := plain(follow.Body).(*ast.BlockStmt)
+				shiftPos(nb, delta)
+				shiftPos(resid, r.Pos()-resid.Pos())
+				out = append(out, &ast.IfStmt{If: r.Pos(), Cond: resid, Body: nb})
+			}
+		} else if len(l2) > 0 {
+			out = append(out, asgn)
+		}
+		if !final {
+			usedGoto = true
+			out = append(out, &ast.BranchStmt{TokPos: r.Pos(), Tok: token.GOTO, Label: &ast.Ident{Name: label, NamePos: r.Pos()}})
+		}
+		return out
+	}
+	var rewrite func(l []ast.Stmt, top bool) []ast.Stmt
+	rewrite = func(l []ast.Stmt, top bool) []ast.Stmt {
+		var out []ast.Stmt
+		for k, s := range l {
+			if r, ok := s.(*ast.ReturnStmt); ok {
+				out = append(out, site(r, top && k == len(l)-1)...)
+				continue
+			}
+			out = append(out, s)
+		}
+		return out
+	}
+	// the statement lists of the helper are collected first: what a site inserts (the duplicated test) holds returns of
+	// the caller, which stay
+	var holders []ast.Node
+	for _, b := range body {
+		ast.Inspect(b, func(n ast.Node) bool {
+			switch n.(type) {
+			case *ast.BlockStmt, *ast.CaseClause, *ast.CommClause:
+				holders = append(holders, n)
+			}
+			return true
+		})
+	}
+	for _, n := range holders {
+		switch x := n.(type) {
+		case *ast.BlockStmt:
+			x.List = rewrite(x.List, false)
+		case *ast.CaseClause:
+			x.Body = rewrite(x.Body, false)
+		case *ast.CommClause:
+			x.Body = rewrite(x.Body, false)
+		}
+	}
+	body = rewrite(body, true)
+	out := append([]ast.Stmt{}, decls...)
+	out = append(out, pre...)
+	out = append(out, body...)
+	if usedGoto {
+		out = append(out, &ast.LabeledStmt{Label: &ast.Ident{Name: label, NamePos: st.End()}, Colon: st.End(), Stmt: &ast.EmptyStmt{Semicolon: st.End(), Implicit: true}})
+	}
+	if follow != nil {
+		return out, 2
+	}
+	return out, 1
+}
+
+// plainLhs: an identifier or a field path of identifiers.
+func (p *GoProg) plainLhs(e ast.Expr) bool {
+	switch x := e.(type) {
+	case *ast.Ident:
+		return true
+	case *ast.SelectorExpr:
+		return p.plainLhs(x.X)
+	}
+	return false
+}
+
+func (p *GoProg) typeExprFor(t types.Type, pos token.Pos) ast.Expr {
+	s := types.TypeString(t, func(pk *types.Package) string {
+		if pk == p.Pkg.Types {
+			return ""
+		}
+		return pk.Name()
+	})
+	e, err := parser.ParseExpr(s)
+	if err != nil {
+		return nil
+	}
+	p.Info.Types[e] = types.TypeAndValue{Type: t}
+	return e
+}
+
+// knownValue: "true", "false", "nil", "nonnil" or "".
+func (p *GoProg) knownValue(e ast.Expr) string {
+	switch x := ast.Unparen(e).(type) {
+	case *ast.Ident:
+		if o := p.Info.Uses[x]; o != nil && o.Pkg() == nil {
+			switch x.Name {
+			case "true", "false", "nil":
+				return x.Name
+			}
+		}
+	case *ast.CallExpr:
+		if f, ok := p.Callee(x).(*types.Func); ok && f.Pkg() != nil {
+			switch f.Pkg().Path() + "." + f.Name() {
+			case "errors.New", "fmt.Errorf":
+				return "nonnil"
+			}
+		}
+	case *ast.UnaryExpr:
+		if _, ok := x.X.(*ast.CompositeLit); ok && x.Op == token.AND {
+			return "nonnil"
+		}
+	}
+	return ""
+}
+
+// foldCond evaluates cond under known constants: 1 true, 0 false, -1 unknown with the residual (fresh syntax).
+func (p *GoProg) foldCond(cond ast.Expr, known map[types.Object]string) (int, ast.Expr) {
+	fresh := func(e ast.Expr) ast.Expr {
+		c := &cloner{p: p, memo: map[ast.Node]ast.Node{}}
+		return c.node(e).(ast.Expr)
+	}
+	boolT := func(e ast.Expr) ast.Expr {
+		p.Info.Types[e] = types.TypeAndValue{Type: types.Typ[types.Bool]}
+		return e
+	}
+	switch x := cond.(type) {
+	case *ast.ParenExpr:
+		v, r := p.foldCond(x.X, known)
+		if v < 0 {
+			if _, isBin := r.(*ast.BinaryExpr); isBin {
+				return v, boolT(&ast.ParenExpr{X: r, Lparen: x.Lparen, Rparen: x.Rparen})
+			}
+		}
+		return v, r
+	case *ast.Ident:
+		if o := p.Info.Uses[x]; o != nil {
+			switch known[o] {
+			case "true":
+				return 1, nil
+			case "false":
+				return 0, nil
+			}
+		}
+	case *ast.UnaryExpr:
+		if x.Op == token.NOT {
+			v, r := p.foldCond(x.X, known)
+			if v >= 0 {
+				return 1 - v, nil
+			}
+			return -1, boolT(&ast.UnaryExpr{Op: token.NOT, OpPos: x.OpPos, X: r})
+		}
+	case *ast.BinaryExpr:
+		switch x.Op {
+		case token.LOR, token.LAND:
+			short := 1 // the value of the left operand that decides
+			if x.Op == token.LAND {
+				short = 0
+			}
+			va, ra := p.foldCond(x.X, known)
+			if va == short {
+				return short, nil
+			}
+			vb, rb := p.foldCond(x.Y, known)
+			if va == 1-short {
+				return vb, rb
+			}
+			// left unknown
+			if vb == 1-short {
+				return -1, ra
+			}
+			if vb == short && p.pureExpr(x.X) {
+				return short, nil
+			}
+			if vb >= 0 {
+				return -1, fresh(cond)
+			}
+			return -1, boolT(&ast.BinaryExpr{X: ra, Op: x.Op, OpPos: x.OpPos, Y: rb})
+		case token.EQL, token.NEQ:
+			for _, pr := range [][2]ast.Expr{{x.X, x.Y}, {x.Y, x.X}} {
+				id, ok := ast.Unparen(pr[0]).(*ast.Ident)
+				if !ok || p.knownValue(pr[1]) != "nil" {
+					continue
+				}
+				if o := p.Info.Uses[id]; o != nil {
+					kv := known[o]
+					if kv == "nil" || kv == "nonnil" {
+						isNil := kv == "nil"
+						if (x.Op == token.EQL) == isNil {
+							return 1, nil
+						}
+						return 0, nil
+					}
+				}
+			}
+		}
+	}
+	return -1, fresh(cond)
+}
+
+// tryDirect marks a parameter the helper assigns as directly replaceable by the caller's variable.
+func (in *inliner) tryDirect(param *ast.Ident, arg ast.Expr, call *ast.CallExpr, lhs []ast.Expr, rets []*ast.ReturnStmt, caller *ast.FuncDecl) {
+	p := in.p
+	pobj := p.Info.Defs[param]
+	aid, ok := ast.Unparen(arg).(*ast.Ident)
+	if !ok || pobj == nil {
+		return
+	}
+	aobj, ok := p.Info.Uses[aid].(*types.Var)
+	if !ok || aobj.IsField() || aobj.Parent() == nil || aobj.Parent() == p.Pkg.Types.Scope() {
+		return
+	}
+	// the result position that is this parameter at every return, assigned to the same variable
+	pos := -1
+	for k, l := range lhs {
+		if id, ok := l.(*ast.Ident); ok && (p.Info.Uses[id] == aobj) {
+			pos = k
+		}
+	}
+	if pos < 0 {
+		return
+	}
+	for _, r := range rets {
+		if pos >= len(r.Results) {
+			return
+		}
+		rid, ok := ast.Unparen(r.Results[pos]).(*ast.Ident)
+		if !ok || p.Info.Uses[rid] != pobj {
+			return
+		}
+	}
+	// no other argument mentions the variable, no closure of the caller captures it, its address is not taken
+	n := 0
+	for _, a := range call.Args {
+		ast.Inspect(a, func(x ast.Node) bool {
+			if id, ok := x.(*ast.Ident); ok && p.Info.Uses[id] == aobj {
+				n++
+			}
+			return true
+		})
+	}
+	if n != 1 {
+		return
+	}
+	bad := false
+	ast.Inspect(caller.Body, func(x ast.Node) bool {
+		switch y := x.(type) {
+		case *ast.FuncLit:
+			ast.Inspect(y, func(z ast.Node) bool {
+				if id, ok := z.(*ast.Ident); ok && p.Info.Uses[id] == aobj {
+					bad = true
+				}
+				return true
+			})
+			return false
+		case *ast.UnaryExpr:
+			if id, ok := ast.Unparen(y.X).(*ast.Ident); ok && y.Op == token.AND && p.Info.Uses[id] == aobj {
+				bad = true
+			}
+		}
+		return true
+	})
+	if !bad {
+		in.direct[pobj] = true
+	}
+}
+
+// shiftPos adds delta to every valid position inside n.
+func shiftPos(n ast.Node, delta token.Pos) {
+	if delta == 0 || n == nil {
+		return
+	}
+	posT := reflect.TypeOf(token.NoPos)
+	seen := map[ast.Node]bool{}
+	var walk func(v reflect.Value)
+	walk = func(v reflect.Value) {
+		switch v.Kind() {
+		case reflect.Ptr:
+			if v.IsNil() {
+				return
+			}
+			if nd, ok := v.Interface().(ast.Node); ok {
+				if seen[nd] {
+					return
+				}
+				seen[nd] = true
+			} else {
+				return // *ast.Object, *ast.Scope
+			}
+			walk(v.Elem())
+		case reflect.Interface:
+			if !v.IsNil() {
+				walk(v.Elem())
+			}
+		case reflect.Struct:
+			for i := 0; i < v.NumField(); i++ {
+				f := v.Field(i)
+				if f.Type() == posT {
+					if f.CanSet() && f.Int() != 0 {
+						f.SetInt(f.Int() + int64(delta))
+					}
+					continue
+				}
+				walk(f)
+			}
+		case reflect.Slice:
+			for i := 0; i < v.Len(); i++ {
+				walk(v.Index(i))
+			}
+		}
+	}
+	walk(reflect.ValueOf(n))
+}
+
+// deadBeforeReturn: the assignment's targets are plain locals that the leaving block (which ends in a return) does not
+// mention, the values are side-effect free, and nothing else can observe the variables (no named results of the
+// caller, no closure or defer mentioning them): the stores are dead.
+func (in *inliner) deadBeforeReturn(as *ast.AssignStmt, body *ast.BlockStmt, caller *ast.FuncDecl) bool {
+	p := in.p
+	if len(as.Lhs) == 0 {
+		return true
+	}
+	if len(body.List) == 0 {
+		return false
+	}
+	if _, isRet := body.List[len(body.List)-1].(*ast.ReturnStmt); !isRet {
+		return false
+	}
+	results := map[types.Object]bool{}
+	if caller.Type.Results != nil {
+		for _, f := range caller.Type.Results.List {
+			for _, nm := range f.Names {
+				results[p.Info.Defs[nm]] = true
+			}
+		}
+	}
+	for k, l := range as.Lhs {
+		id, ok := l.(*ast.Ident)
+		if !ok {
+			return false
+		}
+		o, ok := p.ObjOf(id).(*types.Var)
+		if !ok || o.IsField() || results[o] || o.Parent() == p.Pkg.Types.Scope() {
+			return false
+		}
+		if !(p.pureExpr(as.Rhs[k]) || p.knownValue(as.Rhs[k]) != "") {
+			return false
+		}
+		used := false
+		ast.Inspect(body, func(n ast.Node) bool {
+			if u, ok := n.(*ast.Ident); ok && p.Info.Uses[u] == types.Object(o) {
+				used = true
+			}
+			return true
+		})
+		ast.Inspect(caller.Body, func(n ast.Node) bool {
+			switch x := n.(type) {
+			case *ast.FuncLit, *ast.DeferStmt:
+				ast.Inspect(x, func(m ast.Node) bool {
+					if u, ok := m.(*ast.Ident); ok && p.Info.Uses[u] == types.Object(o) {
+						used = true
+					}
+					return true
+				})
+			case *ast.UnaryExpr:
+				if u, ok := ast.Unparen(x.X).(*ast.Ident); ok && x.Op == token.AND && p.Info.Uses[u] == types.Object(o) {
+					used = true
+				}
+			}
+			return true
+		})
+		if used {
+			return false
+		}
+	}
+	return true
+}
+
+// sinkTemp rewrites `t := e; S…; x = t` (same statement list, t read only there, x a plain local or parameter that S…
+// neither reads nor writes and whose address is never taken) into `x = e; S…`.
+func (p *GoProg) sinkTemp(fd *ast.FuncDecl, def *ast.AssignStmt, t *types.Var) {
+	done := false
+	try := func(list []ast.Stmt) []ast.Stmt {
+		if done {
+			return list
+		}
+		di := -1
+		for k, st := range list {
+			if st == ast.Stmt(def) {
+				di = k
+			}
+		}
+		if di < 0 {
+			return list
+		}
+		for k := di + 1; k < len(list); k++ {
+			use, ok := list[k].(*ast.AssignStmt)
+			if !ok || use.Tok != token.ASSIGN || len(use.Lhs) != 1 || len(use.Rhs) != 1 {
+				continue
+			}
+			rid, ok := ast.Unparen(use.Rhs[0]).(*ast.Ident)
+			if !ok || p.Info.Uses[rid] != types.Object(t) {
+				continue
+			}
+			xid, ok := use.Lhs[0].(*ast.Ident)
+			if !ok {
+				return list
+			}
+			x, ok := p.ObjOf(xid).(*types.Var)
+			if !ok || x.IsField() || x.Parent() == p.Pkg.Types.Scope() {
+				return list
+			}
+			// x untouched in between, in the defining expression, and never address-taken or captured
+			bad := false
+			mentions := func(n ast.Node) {
+				ast.Inspect(n, func(m ast.Node) bool {
+					if id, ok := m.(*ast.Ident); ok && (p.Info.Uses[id] == types.Object(x) || p.Info.Defs[id] == types.Object(x)) {
+						bad = true
+					}
+					return true
+				})
+			}
+			mentions(def.Rhs[0])
+			for _, mid := range list[di+1 : k] {
+				mentions(mid)
+				switch mid.(type) {
+				case *ast.AssignStmt, *ast.IncDecStmt, *ast.ExprStmt:
+				default:
+					bad = true // control flow in between: keep it simple
+				}
+			}
+			ast.Inspect(fd.Body, func(m ast.Node) bool {
+				switch y := m.(type) {
+				case *ast.FuncLit:
+					mentions(y)
+					return false
+				case *ast.UnaryExpr:
+					if id, ok := ast.Unparen(y.X).(*ast.Ident); ok && y.Op == token.AND && p.Info.Uses[id] == types.Object(x) {
+						bad = true
+					}
+				}
+				return true
+			})
+			if bad {
+				return list
+			}
+			nl := &ast.Ident{Name: xid.Name, NamePos: def.Lhs[0].Pos()}
+			p.Info.Uses[nl] = x
+			if tv, ok := p.Info.Types[xid]; ok {
+				p.Info.Types[nl] = tv
+			}
+			list[di] = &ast.AssignStmt{Lhs: []ast.Expr{nl}, Tok: token.ASSIGN, TokPos: def.TokPos, Rhs: def.Rhs}
+			out := append([]ast.Stmt{}, list[:k]...)
+			out = append(out, list[k+1:]...)
+			done = true
+			return out
+		}
+		return list
+	}
+	ast.Inspect(fd.Body, func(n ast.Node) bool {
+		switch x := n.(type) {
+		case *ast.BlockStmt:
+			x.List = try(x.List)
+		case *ast.CaseClause:
+			x.Body = try(x.Body)
+		case *ast.CommClause:
+			x.Body = try(x.Body)
+		}
+		return !done
+	})
+}
+
+// stripRedundantParens removes parentheses around a whole index, slice bound, call argument, assigned or returned value
+// or condition (left behind when an expression was substituted for an identifier).
+func stripRedundantParens(root ast.Node) {
+	un := func(e ast.Expr) ast.Expr {
+		if pe, ok := e.(*ast.ParenExpr); ok {
+			return ast.Unparen(pe)
+		}
+		return e
+	}
+	ast.Inspect(root, func(n ast.Node) bool {
+		switch x := n.(type) {
+		case *ast.IndexExpr:
+			x.Index = un(x.Index)
+		case *ast.SliceExpr:
+			if x.Low != nil {
+				x.Low = un(x.Low)
+			}
+			if x.High != nil {
+				x.High = un(x.High)
+			}
+			if x.Max != nil {
+				x.Max = un(x.Max)
+			}
+		case *ast.CallExpr:
+			for i := range x.Args {
+				x.Args[i] = un(x.Args[i])
+			}
+		case *ast.AssignStmt:
+			for i := range x.Rhs {
+				x.Rhs[i] = un(x.Rhs[i])
+			}
+		case *ast.ReturnStmt:
+			for i := range x.Results {
+				x.Results[i] = un(x.Results[i])
+			}
+		case *ast.IfStmt:
+			x.Cond = un(x.Cond)
+		case *ast.ParenExpr:
+			x.X = un(x.X)
+		}
+		return true
+	})
 }
